@@ -1881,6 +1881,12 @@ def symbolic_mode(query: Optional[SymbolicExpression] = None, mode: EQLMode = EQ
     try:
         if query is not None:
             query.__enter__(in_rule_mode=True)
+            if mode is EQLMode.Rule:
+                # Rules are being added to the query: its description is a rule description from now on, such that its
+                # selected variables are inferred by the conclusions instead of ranging over the known instances.
+                description = query._child_ if isinstance(query, ResultQuantifier) else query
+                if isinstance(description, QueryObjectDescriptor):
+                    description.rule_mode = True
         _set_symbolic_mode(mode)
         yield SymbolicExpression._current_parent_()
     finally:
